@@ -73,7 +73,8 @@ class Report:
                     lines.append("KNOWN-FINDING: property=%s %s" % (self.pid, kmap[v["key"]]["what"]))
             else:
                 new.append(v)
-        rdir = os.path.join(VERIF, "evidence", "replay")
+        no_ev = bool(os.environ.get("PV_NO_EVIDENCE"))
+        rdir = os.path.join(VERIF, "evidence", "replay") if not no_ev else os.path.join(os.environ.get("PV_SCRATCH", "/var/tmp"), "pv-replay-%d" % os.getpid())
         os.makedirs(rdir, exist_ok=True)
         # remove stale replay files of this property
         for f in os.listdir(rdir):
@@ -114,9 +115,14 @@ class Report:
             "wall_s": round(time.time() - self.t0, 3),
             "violations": len(new),
         }
-        os.makedirs(os.path.join(VERIF, "evidence"), exist_ok=True)
-        with open(os.path.join(VERIF, "evidence", "%s.json" % self.pid), "w") as fh:
-            json.dump(ev, fh, indent=1, default=str)
+        if not no_ev:
+            os.makedirs(os.path.join(VERIF, "evidence"), exist_ok=True)
+            with open(os.path.join(VERIF, "evidence", "%s.json" % self.pid), "w") as fh:
+                json.dump(ev, fh, indent=1, default=str)
+        else:
+            import shutil
+
+            shutil.rmtree(rdir, ignore_errors=True)
         for l in lines:
             print(l)
         print("%s tier=%s obligations=%d discharged=%d violations=%d known=%d wall=%.1fs" % (self.pid, self.tier, n_ob, n_ok, len(new), len(seen_known), time.time() - self.t0))
